@@ -1,7 +1,9 @@
 package main
 
 import (
+	"reflect"
 	"strconv"
+	"strings"
 
 	"github.com/cosmos/cosmos-proto/zzverif/proj"
 	"google.golang.org/protobuf/reflect/protoreflect"
@@ -120,4 +122,70 @@ func syncInto(m protoreflect.Message, j proj.J) {
 		}
 	}
 	m.SetUnknown(proj.ToBytes(u))
+}
+
+// resliceLists shortens every message list reachable from the generated struct v by one element
+// with a plain Go reslice (x.F = x.F[:n-1]): the dropped pointer stays in the spare capacity.
+func resliceLists(v reflect.Value) (n int) {
+	if v.Kind() == reflect.Ptr || v.Kind() == reflect.Interface {
+		if v.IsNil() {
+			return 0
+		}
+		return resliceLists(v.Elem())
+	}
+	if v.Kind() != reflect.Struct || strings.HasPrefix(v.Type().PkgPath(), "google.golang.org/protobuf/") {
+		return 0
+	}
+	for i := 0; i < v.NumField(); i++ {
+		f := v.Field(i)
+		if v.Type().Field(i).PkgPath != "" {
+			continue
+		}
+		switch f.Kind() {
+		case reflect.Slice:
+			if f.Type().Elem().Kind() != reflect.Ptr || f.Len() == 0 {
+				continue
+			}
+			f.Set(f.Slice(0, f.Len()-1))
+			n++
+			for j := 0; j < f.Len(); j++ {
+				n += resliceLists(f.Index(j))
+			}
+		case reflect.Map:
+			if f.Type().Elem().Kind() != reflect.Ptr {
+				continue
+			}
+			for _, k := range f.MapKeys() {
+				n += resliceLists(f.MapIndex(k))
+			}
+		case reflect.Ptr, reflect.Interface:
+			n += resliceLists(f)
+		}
+	}
+	return n
+}
+
+// truncateLists is the same edit on the reference twin, through the reflection API.
+func truncateLists(m protoreflect.Message) {
+	if !m.IsValid() || strings.HasPrefix(string(m.Descriptor().FullName()), "google.protobuf.") {
+		return
+	}
+	m.Range(func(fd protoreflect.FieldDescriptor, v protoreflect.Value) bool {
+		switch {
+		case fd.IsList() && fd.Message() != nil:
+			l := m.Mutable(fd).List()
+			l.Truncate(l.Len() - 1)
+			for i := 0; i < l.Len(); i++ {
+				truncateLists(l.Get(i).Message())
+			}
+		case fd.IsMap() && fd.MapValue().Message() != nil:
+			v.Map().Range(func(_ protoreflect.MapKey, mv protoreflect.Value) bool {
+				truncateLists(mv.Message())
+				return true
+			})
+		case fd.Message() != nil && !fd.IsList() && !fd.IsMap():
+			truncateLists(m.Mutable(fd).Message())
+		}
+		return true
+	})
 }
